@@ -71,6 +71,16 @@ class IpCase:
         self.w = w
         self.notifications = []
         w.pairing.dispatcher_connect(lambda ev: self.notifications.append(ev) if ev else None)
+        def fold_back(ev, pairing=w.pairing):
+            # a realistic consumer (Home Assistant does this): fold every notified change into the pairing's model, so a later
+            # write of the value the model already holds is still a write the accessory accepted
+            try:
+                if ev and pairing.accessories:
+                    pairing.accessories.process_changes(ev)
+            except Exception:  # noqa: BLE001 - ids unknown to the model
+                pass
+
+        w.pairing.dispatcher_connect(fold_back)
         self.reply = None
         w.accessory.script_for = lambda host, attempt: __import__("vf.simnet", fromlist=["x"]).ConnScript(responder=self.responder)
 
